@@ -110,7 +110,12 @@ func (g *GettyRemoting) sendAsync(session getty.Session, msg message.RpcMessage,
 	}
 	_, _, err = session.WritePkg(msg, time.Duration(0))
 	if err != nil {
-		g.futures.Delete(msg.ID)
+		if callback != nil {
+			// only the future stored above: a message sent without callback (the
+			// answer to a request of the coordinator carries the coordinator's
+			// message id) may share its id with a pending request of this client
+			g.futures.Delete(msg.ID)
+		}
 		log.Errorf("send message: %#v, session: %s", msg, session.Stat())
 		return nil, err
 	}
